@@ -42,6 +42,7 @@ class SimState:
         self.listener = None   # optional callback(label) after logging an event
         self.tagger = None     # optional callable giving (worker, task) for extents/events
         self.capture = False   # read back and keep the bytes of every recorded extent
+        self.read_events = False  # binary reads through the seam are events too (read-side I/O errors)
 
     def reset(self, root=None, fault=None, on_kill=None, record_extents=False):
         self.active = False
@@ -54,6 +55,7 @@ class SimState:
         self.listener = None
         self.tagger = None
         self.capture = False
+        self.read_events = False
 
 
 SIM = SimState()
@@ -280,6 +282,58 @@ class SimFile:
         return self._f.close()
 
 
+_READ_FDS = {}      # fd -> path of files opened for reading through the seam (for positional reads)
+
+
+class _SimOs:
+    """Stands in for the `os` module object referenced by mtscomp: os.pread on a file opened through the seam is a
+    read event (mtscomp reads compressed chunks with positional reads)."""
+
+    def __getattr__(self, name):
+        return getattr(os, name)
+
+    @staticmethod
+    def pread(fd, n, offset):
+        pth = _READ_FDS.get(fd)
+        if pth is not None and SIM.active and SIM.read_events:
+            event("read", pth)
+        return os.pread(fd, n, offset)
+
+
+class SimReadFile:
+    """Wrapper over a real binary file opened for reading: every read() is an event (EIO on the source)."""
+
+    def __init__(self, f, path):
+        self._f = f
+        self._path = os.fspath(path)
+        _READ_FDS[f.fileno()] = self._path
+
+    def __getattr__(self, name):
+        return getattr(self._f, name)
+
+    def close(self):
+        _READ_FDS.pop(self._f.fileno(), None) if not self._f.closed else None
+        return self._f.close()
+
+    def __enter__(self):
+        return self
+
+    def __exit__(self, *a):
+        self._f.close()
+        return False
+
+    def __iter__(self):
+        return iter(self._f)
+
+    def read(self, *a):
+        event("read", self._path)
+        return self._f.read(*a)
+
+    def readinto(self, b):
+        event("read", self._path)
+        return self._f.readinto(b)
+
+
 def _flip_byte(path, pos0, pos1):
     """Silent corruption of a completed write: one stored byte differs from what was written."""
     f = SIM.fault
@@ -322,6 +376,8 @@ def sim_open(file, mode="r", *a, **kw):
         return _real_open(file, mode, *a, **kw)
     writable = any(c in mode for c in "wxa+")
     if not writable:
+        if SIM.read_events and "b" in mode:
+            return SimReadFile(_real_open(file, mode, *a, **kw), file)
         return _real_open(file, mode, *a, **kw)
     if "w" in mode or "x" in mode:
         event("open-" + mode.replace("b", "").replace("t", "") + ("b" if "b" in mode else ""), file)
@@ -389,6 +445,8 @@ def install(modules):
         m.__dict__["open"] = sim_open
         if "shutil" in m.__dict__:
             m.__dict__["shutil"] = _SimShutil()
+        if m.__name__ == "mtscomp" and "os" in m.__dict__:
+            m.__dict__["os"] = _SimOs()
     if not _installed[0]:
         _P.rename = _p_rename
         _P.replace = _p_replace
@@ -402,6 +460,8 @@ def uninstall(modules):
         m.__dict__.pop("open", None)
         if "shutil" in m.__dict__:
             m.__dict__["shutil"] = _shutil
+        if m.__name__ == "mtscomp" and "os" in m.__dict__:
+            m.__dict__["os"] = os
     _P.rename = _real["rename"]
     _P.replace = _real["replace"]
     _P.unlink = _real["unlink"]
